@@ -41,6 +41,28 @@ def p8_comment_lines(prog, ctx):
             ctx.obs.append(ob)
 
 
+def objnorm(text):
+    """the object handed on by value (`*kf`, `key_file.x`) or by reference (`kf`, `key_file->x`): the same thing for these rules"""
+    t = text.replace("->", ".")
+    if t.startswith("*"):
+        t = t[1:]
+    return t.replace("(*", "(").replace("strdup(*", "strdup(")
+
+
+def out_dest(call, ai):
+    """where the ai-th result of a helper call ends up: `&dest` handed as argument, or the returned value assigned to dest"""
+    a = call.call_args()
+    if ai < len(a):
+        t = render(a[ai])
+        return t[1:] if t.startswith("&") else None
+    up = call.parent
+    while up is not None and up.k in ("ImplicitCastExpr", "ParenExpr", "CStyleCastExpr"):
+        up = up.parent
+    if up is not None and up.k == "BinaryOperator" and up.j.get("op") == "=" and any(x is call for x in up.children[1].walk()) and up.children[1].strip() is call:
+        return render(up.children[0])
+    return None
+
+
 def run(prog, ctx):
     p8_comment_lines(prog, ctx)
     ma = ModAnalysis(prog, indirect_targets=indirect_table(prog))
@@ -63,15 +85,15 @@ def run(prog, ctx):
             ctx.fail("P1", "extended value: %s" % ", ".join(o[0] for o in outs), g.where, "%s() is not called" % callee, key="map:%s" % callee)
             continue
         a = cs[0].call_args()
-        good = render(a[0]) == obj and (callee == "getPath" or render(a[1]) == idx)
+        good = objnorm(render(a[0])) == objnorm(obj) and (callee == "getPath" or render(a[1]) == idx)
         for fld, ai in outs:
-            if good and render(a[ai]) == "&(*result)->%s" % fld:
+            if good and out_dest(cs[0], ai) == "(*result)->%s" % fld:
                 ctx.ok("P1", "extended value: %s" % fld, cs[0].where, "%s(%s) -> result->%s" % (callee, ", ".join(render(x) for x in a[:2]), fld))
             else:
                 ctx.fail("P1", "extended value: %s" % fld, cs[0].where,
                          "%s is filled by %s(%s): wrong entry index / object / destination field" % (fld, callee, ", ".join(render(x) for x in a)), key="map:%s" % fld)
     gs = g.calls("getStringValueNum")
-    if len(gs) == 1 and render(gs[0].call_args()[0]) == obj and render(gs[0].call_args()[1]) == idx:
+    if len(gs) == 1 and objnorm(render(gs[0].call_args()[0])) == objnorm(obj) and render(gs[0].call_args()[1]) == idx:
         ctx.ok("P1", "extended value: values", gs[0].where, "split from the value of the entry found by find_key (index %s)" % idx)
     else:
         ctx.fail("P1", "extended value: values", g.where, "value source %s" % [render(c) for c in gs], key="map:values")
@@ -104,20 +126,23 @@ def run(prog, ctx):
         h = prog.fn(helper)
         ctx.touch(h)
         for dst, fld in pairs:
-            sts = [st for lhs, rhs, st, kind in query.stores(h) if render(lhs) == dst and rhs is not None and not rhs.is_null_const()]
+            # the value leaves through the out-parameter, or (a helper with one result) as the return value
+            sts = [(st, st.children[1]) for lhs, rhs, st, kind in query.stores(h) if render(lhs) == dst and rhs is not None and not rhs.is_null_const()]
+            if h.param(dst.lstrip("*")) is None and len(pairs) == 1:
+                sts = [(r, r.children[0]) for r in h.returns() if r.children and not r.children[0].is_null_const()]
             srcs = set()
-            for st in sts:
-                for x in st.children[1].walk():
+            for st, val in sts:
+                for x in val.walk():
                     if x.k == "MemberExpr" and x.j.get("rec") in ("file_entry", "econf_file") and x.j.get("member") not in ("file_entry",):
                         srcs.add(x.j["member"])
-            idx_ok = all("[num]" in render(st.children[1]) for st in sts) if helper != "getPath" else True
+            idx_ok = all("[num]" in render(val) for st, val in sts) if helper != "getPath" else True
             obj0 = h.params[0]["name"]
             exact = "%s.file_entry[num].%s" % (obj0, fld) if helper != "getPath" else "%s.%s" % (obj0, fld)
-            plain = all(render(st.children[1]) in (exact, "strdup(%s)" % exact) for st in sts)
+            plain = all(objnorm(render(val)) in (exact, "strdup(%s)" % exact) for st, val in sts)
             if srcs == {fld} and idx_ok and not plain:
-                ctx.fail("P1", "%s hands out .%s unchanged" % (helper, fld), sts[0].where, "stores %s" % render(sts[0].children[1]), key="helper-copy:%s:%s" % (helper, fld))
+                ctx.fail("P1", "%s hands out .%s unchanged" % (helper, fld), sts[0][0].where, "stores %s" % render(sts[0][1]), key="helper-copy:%s:%s" % (helper, fld))
             elif srcs == {fld} and idx_ok:
-                ctx.ok("P1", "%s reads .%s of the entry asked for" % (helper, fld), sts[0].where, render(sts[0]))
+                ctx.ok("P1", "%s reads .%s of the entry asked for" % (helper, fld), sts[0][0].where, render(sts[0][0]))
             else:
                 ctx.fail("P1", "%s reads .%s of the entry asked for" % (helper, fld), h.where, "reads %s%s" % (sorted(srcs), "" if idx_ok else " at a different index"),
                          key="helper:%s:%s" % (helper, fld))
